@@ -1,6 +1,8 @@
-"""Abstract evaluation of `InstructionProperties` predicates on one ParserNode variant with given field values."""
+"""Abstract evaluation of per-instruction predicates (`InstructionProperties`, `HasGenValueInfo`, ...) on one
+ParserNode variant with given operand values.  Values: register variant names ("X0".."X31"), instruction
+variant names, integers, tuples, ("some", v) / "none", booleans."""
 from .facts import *
-from .p_c08 import self_match, arm_table, PNODE
+from .p_c08 import PNODE
 
 IPROPS = "InstructionProperties"
 REG = "riscv_analysis::parser::register::Register"
@@ -16,97 +18,254 @@ def _payload_name(arm):
 
 
 def _variants_of(pat):
-    return [short(v) for k, v in pat_variants(pat) if k == "path" and v] + (["_"] if any(k == "wild" for k, v in pat_variants(pat)) or pat.get("k") in ("PWild", "PBinding") else [])
+    vs = [short(v) for k, v in pat_variants(pat) if k == "path" and v]
+    if pat.get("k") in ("PWild", "PBinding") or any(k == "wild" for k, v in pat_variants(pat)):
+        vs.append("_")
+    return vs
 
 
-def eval_prop(F, method, variant, env, depth=0):
-    """-> 'some' | 'none' | True | False.  env: field name -> abstract value (register variant name, inst variant name, int)."""
-    if depth > 4:
-        raise Unx("delegation too deep")
-    p = F.method(PNODE, method, trait=IPROPS)
-    f = F.fn(p)
-    body = peel(f["hir"]["value"])
-    while body.get("k") == "Block" and not body.get("stmts") and body.get("expr") is not None:
-        body = peel(body["expr"])
-    return _ev_body(F, body, variant, env, None, depth)
-
-
-def _ev_body(F, e, variant, env, payload, depth):
+def _strip(e):
     e = peel(e)
-    while e.get("k") == "Block" and not e.get("stmts") and e.get("expr") is not None:
-        e = peel(e["expr"])
-    k = e.get("k")
-    if k == "Match" and ekey(e["scrut"]).lstrip("*&") == "self":
-        for arm in e["arms"]:
-            vs = _variants_of(arm["pat"])
-            if variant in vs or "_" in vs:
-                pl = _payload_name(arm) if variant in vs else None
-                g = arm.get("guard")
-                if g is not None and not _ev_bool(F, g, variant, env, pl, depth):
+    while True:
+        if e.get("k") in ("DropTemps", "Use"):
+            e = peel(e["e"])
+        elif e.get("k") == "Block" and not e.get("stmts") and e.get("expr") is not None:
+            e = peel(e["expr"])
+        else:
+            return e
+
+
+class Ev:
+    def __init__(self, F, variant, env, depth=0):
+        self.F, self.variant, self.env, self.depth = F, variant, env, depth
+
+    def prop(self, method, trait=None):
+        if self.depth > 5:
+            raise Unx("delegation too deep")
+        p = None
+        for t in ([trait] if trait else []) + [IPROPS, "HasGenValueInfo", "HasGenKillInfo", None]:
+            try:
+                p = self.F.method(PNODE, method, trait=t) if t else self.F.method(PNODE, method)
+                if p:
+                    break
+            except Exception:
+                p = None
+        if not p:
+            raise Unx(f"no method {method} on ParserNode")
+        f = self.F.fn(p)
+        sub = Ev(self.F, self.variant, self.env, self.depth + 1)
+        return sub.body(f["hir"]["value"], None, {})
+
+    # ---- values
+    def body(self, e, payload, loc_):
+        e = _strip(e)
+        k = e.get("k")
+        if k == "Match":
+            sc = _strip(e["scrut"])
+            if ekey(sc).lstrip("*&") == "self":
+                for arm in e["arms"]:
+                    vs = _variants_of(arm["pat"])
+                    if self.variant in vs or "_" in vs:
+                        pl = _payload_name(arm) if self.variant in vs else None
+                        g = arm.get("guard")
+                        if g is not None and not self.truth(g, pl, loc_):
+                            continue
+                        return self.body(arm["body"], pl, loc_)
+                raise Unx("no arm applies")
+            # match on a computed value (e.g. `match self.stores_to_memory() { Some((a,(b,c))) if .. => .. }`)
+            v = self.body(sc, payload, loc_)
+            for arm in e["arms"]:
+                b = self.bind(arm["pat"], v)
+                if b is None:
                     continue
-                return _ev_body(F, arm["body"], variant, env, pl, depth)
-        raise Unx("no arm applies")
-    if k == "Call" and short(callee_of(e) or "") == "Some":
+                l2 = dict(loc_)
+                l2.update(b)
+                g = arm.get("guard")
+                if g is not None and not self.truth(g, payload, l2):
+                    continue
+                return self.body(arm["body"], payload, l2)
+            raise Unx("no arm of the inner match applies")
+        if k == "If" and e.get("else") is not None:
+            c = _strip(e["cond"])
+            if c.get("k") == "LetExpr":
+                v = self.body(c["init"], payload, loc_)
+                b = self.bind(c["pat"], v)
+                if b is not None:
+                    l2 = dict(loc_)
+                    l2.update(b)
+                    return self.body(e["then"], payload, l2)
+                return self.body(e["else"], payload, loc_)
+            return self.body(e["then"] if self.truth(c, payload, loc_) else e["else"], payload, loc_)
+        if k == "Call" and short(callee_of(e) or "") == "Some" and (callee_of(e) or "").startswith("core::option"):
+            return ("some", self.val(e["args"][0], payload, loc_))
+        if k == "Path" and short(e.get("res") or "") == "None" and (e.get("res") or "").startswith("core::option"):
+            return "none"
+        if k == "MethodCall" and ekey(e["recv"]).lstrip("*&") == "self" and not e["args"]:
+            return self.prop(e["name"])
+        if k == "MethodCall" and e["name"] in ("is_some", "is_none") and not e["args"]:
+            r = self.body(e["recv"], payload, loc_)
+            some = isinstance(r, tuple) and r and r[0] == "some"
+            return some if e["name"] == "is_some" else (r == "none")
+        if k == "MethodCall" and e["name"] == "map" and len(e["args"]) == 1:
+            r = self.body(e["recv"], payload, loc_)
+            if r == "none":
+                return "none"
+            return ("some", "?")
+        try:
+            return self.truth(e, payload, loc_)
+        except Unx:
+            return self.val(e, payload, loc_)
+
+    def val(self, e, payload, loc_):
+        e = _strip(e)
+        k = e.get("k")
+        if k == "Tup":
+            return tuple(self.val(x, payload, loc_) for x in e["elems"])
+        if k == "MethodCall" and e["name"] in ("get", "get_cloned", "clone", "value") and not e["args"]:
+            return self.val(e["recv"], payload, loc_)
+        if k in ("AddrOf",) or (k == "Unary" and e.get("op") == "Deref"):
+            return self.val(e.get("e") or e.get("a"), payload, loc_)
+        if k == "Field" and _strip(e["e"]).get("k") == "Path" and _strip(e["e"]).get("res") == payload and payload is not None:
+            if e["name"] not in self.env:
+                return "?" + e["name"]
+            return self.env[e["name"]]
+        if k == "Path" and e.get("res_kind") == "Local":
+            if e.get("res") in loc_:
+                return loc_[e["res"]]
+            return "?"
+        if k == "Path" and e.get("res") and "::" in e["res"]:
+            return short(e["res"])
+        lv = lit_value(e)
+        if isinstance(lv, (int, bool)):
+            return lv
+        if k == "Call":
+            return ("call", short(callee_of(e) or "?")) + tuple(self.val(a, payload, loc_) for a in e["args"])
+        return "?"
+
+    def bind(self, pat, v):
+        """-> dict of bindings if pattern matches value, else None"""
+        k = pat.get("k")
+        if k == "PWild":
+            return {}
+        if k == "PBinding":
+            return {pat["name"]: v}
+        res = pat.get("res") or (peel(pat.get("e") or {}).get("res") if k == "PExpr" else "") or ""
+        if short(res) == "Some":
+            if isinstance(v, tuple) and v and v[0] == "some":
+                return self.bind(pat["pats"][0], v[1])
+            return None
+        if short(res) == "None":
+            return {} if v == "none" else None
+        if k == "PTuple":
+            if isinstance(v, tuple) and len(v) == len(pat["pats"]) and (not v or v[0] not in ("some", "call")):
+                out = {}
+                for p_, x in zip(pat["pats"], v):
+                    b = self.bind(p_, x)
+                    if b is None:
+                        return None
+                    out.update(b)
+                return out
+            if v == "?":
+                out = {}
+                for b_ in walk(pat):
+                    if b_.get("k") == "PBinding":
+                        out[b_["name"]] = "?"
+                return out
+            return None
+        if k in ("PRef", "PDeref", "PBox"):
+            return self.bind(pat["pat"], v)
+        raise Unx(f"pattern {k}")
+
+    # ---- booleans
+    def truth(self, e, payload, loc_):
+        e = _strip(e)
+        k = e.get("k")
+        if k == "Lit" and e["lit"]["t"] == "bool":
+            return e["lit"]["v"]
+        if k == "Binary" and e["op"] in ("And", "Or"):
+            a = self.truth(e["a"], payload, loc_)
+            if e["op"] == "And":
+                return a and self.truth(e["b"], payload, loc_)
+            return a or self.truth(e["b"], payload, loc_)
+        if k == "Unary" and e["op"] == "Not":
+            return not self.truth(e["a"], payload, loc_)
+        if k == "Binary" and e["op"] in ("Eq", "Ne"):
+            x, y = self.val(e["a"], payload, loc_), self.val(e["b"], payload, loc_)
+            if isinstance(x, str) and x.startswith("?") or isinstance(y, str) and y.startswith("?"):
+                raise Unx(f"comparison with unknown {x} / {y}")
+            r = x == y
+            return r if e["op"] == "Eq" else not r
+        if k == "MethodCall" and ekey(e["recv"]).lstrip("*&") == "self" and not e["args"]:
+            r = self.prop(e["name"])
+            if isinstance(r, bool):
+                return r
+            raise Unx(f"{e['name']}() used as a condition")
+        if k == "MethodCall" and e["name"] in ("is_some", "is_none") and not e["args"]:
+            r = self.body(e["recv"], payload, loc_)
+            some = isinstance(r, tuple) and r and r[0] == "some"
+            return some if e["name"] == "is_some" else (r == "none")
+        if k == "MethodCall" and not e["args"]:
+            # predicate on a register value, e.g. `x.rs1.get().is_stack_pointer()`
+            rv = self.val(e["recv"], payload, loc_)
+            if isinstance(rv, str) and rv.startswith("X") and rv[1:].isdigit():
+                return reg_pred(self.F, e["name"], rv)
+        if k == "Match":
+            r = self.body(e, payload, loc_)
+            if isinstance(r, bool):
+                return r
+        raise Unx(ekey(e)[:60])
+
+
+def reg_pred(F, method, reg):
+    p = None
+    for t in ("RegisterProperties", None):
+        try:
+            p = F.method(REG, method, trait=t) if t else F.method(REG, method)
+            if p:
+                break
+        except Exception:
+            p = None
+    if not p:
+        raise Unx(f"no Register::{method}")
+    b = _strip(F.fn(p)["hir"]["value"])
+
+    def ev(e):
+        e = _strip(e)
+        k = e.get("k")
+        if k == "Binary" and e["op"] in ("And", "Or"):
+            return (ev(e["a"]) and ev(e["b"])) if e["op"] == "And" else (ev(e["a"]) or ev(e["b"]))
+        if k == "Unary" and e["op"] == "Not":
+            return not ev(e["a"])
+        if k == "Binary" and e["op"] in ("Eq", "Ne"):
+            def at(x):
+                x = _strip(x)
+                while x.get("k") in ("AddrOf",) or (x.get("k") == "Unary" and x.get("op") == "Deref"):
+                    x = _strip(x.get("e") or x.get("a"))
+                if x.get("k") == "Path" and x.get("res") == "self":
+                    return reg
+                if x.get("k") == "Path" and (x.get("res") or "").startswith(REG + "::"):
+                    return short(x["res"])
+                raise Unx("register predicate atom")
+            r = at(e["a"]) == at(e["b"])
+            return r if e["op"] == "Eq" else not r
+        if k == "Match" and ekey(e["scrut"]).lstrip("*&") == "self":
+            for arm in e["arms"]:
+                vs = _variants_of(arm["pat"])
+                if reg in vs or "_" in vs:
+                    return ev(arm["body"])
+        if k == "Lit" and e["lit"]["t"] == "bool":
+            return e["lit"]["v"]
+        raise Unx("register predicate shape")
+    return ev(b)
+
+
+def eval_prop(F, method, variant, env, trait=None):
+    """-> ('some', payload) | 'none' | True | False | value"""
+    r = Ev(F, variant, env).prop(method, trait)
+    if isinstance(r, tuple) and r and r[0] == "some":
         return "some"
-    if k == "Path" and short(e.get("res") or "") == "None":
-        return "none"
-    if k == "MethodCall" and ekey(e["recv"]).lstrip("*&") == "self" and not e["args"]:
-        return eval_prop(F, e["name"], variant, env, depth + 1)
-    if k == "MethodCall" and e["name"] in ("is_some", "is_none") and not e["args"]:
-        r = _ev_body(F, e["recv"], variant, env, payload, depth)
-        return (r == "some") if e["name"] == "is_some" else (r == "none")
-    if k == "If" and e.get("else") is not None:
-        c = _ev_bool(F, e["cond"], variant, env, payload, depth)
-        return _ev_body(F, e["then"] if c else e["else"], variant, env, payload, depth)
-    return _ev_bool(F, e, variant, env, payload, depth)
+    return r
 
 
-def _atom(e, env, payload):
-    e = peel(e)
-    k = e.get("k")
-    if k == "MethodCall" and e["name"] in ("get", "get_cloned", "clone", "value") and not e["args"]:
-        return _atom(e["recv"], env, payload)
-    if k in ("AddrOf", "Unary") and e.get("op") in (None, "Deref"):
-        return _atom(e.get("e") or e.get("a"), env, payload)
-    if k == "Field" and peel(e["e"]).get("k") == "Path" and peel(e["e"]).get("res") == payload:
-        if e["name"] not in env:
-            raise Unx("field " + e["name"])
-        return env[e["name"]]
-    if k == "Path" and e.get("res") and "::" in e["res"] and e.get("res_kind") != "Local":
-        return short(e["res"])
-    lv = lit_value(e)
-    if isinstance(lv, (int, bool)):
-        return lv
-    raise Unx(ekey(e)[:50])
-
-
-def _ev_bool(F, e, variant, env, payload, depth):
-    e = peel(e)
-    while e.get("k") in ("DropTemps", "Use"):
-        e = peel(e["e"])
-    while e.get("k") == "Block" and not e.get("stmts") and e.get("expr") is not None:
-        e = peel(e["expr"])
-    k = e.get("k")
-    if k == "Lit" and e["lit"]["t"] == "bool":
-        return e["lit"]["v"]
-    if k == "Binary" and e["op"] in ("And", "Or"):
-        a = _ev_bool(F, e["a"], variant, env, payload, depth)
-        if e["op"] == "And":
-            return a and _ev_bool(F, e["b"], variant, env, payload, depth)
-        return a or _ev_bool(F, e["b"], variant, env, payload, depth)
-    if k == "Unary" and e["op"] == "Not":
-        return not _ev_bool(F, e["a"], variant, env, payload, depth)
-    if k == "Binary" and e["op"] in ("Eq", "Ne"):
-        r = _atom(e["a"], env, payload) == _atom(e["b"], env, payload)
-        return r if e["op"] == "Eq" else not r
-    if k == "MethodCall" and ekey(e["recv"]).lstrip("*&") == "self" and not e["args"]:
-        r = eval_prop(F, e["name"], variant, env, depth + 1)
-        if isinstance(r, bool):
-            return r
-        raise Unx(f"{e['name']}() used as a condition")
-    if k == "MethodCall" and e["name"] in ("is_some", "is_none") and not e["args"]:
-        r = _ev_body(F, e["recv"], variant, env, payload, depth)
-        return (r == "some") if e["name"] == "is_some" else (r == "none")
-    if k == "Match" and e.get("src") != "ForLoopDesugar":
-        return _ev_body(F, e, variant, env, payload, depth)
-    raise Unx(ekey(e)[:60])
+def eval_prop_full(F, method, variant, env, trait=None):
+    return Ev(F, variant, env).prop(method, trait)
